@@ -141,6 +141,30 @@ func init() {
 		}
 		return L(I32(nx), I32(x))
 	}
+	// widened: select against ToArray, the whole bitmap in one case:
+	// [ToArray(ws), [Select(i) for every i < len(ToArray(ws))]]
+	Exec["bitmap.Select32/ToArray"] = func(a []V) string {
+		ws := a[0].U64s()
+		ta := bitmap.ToArray(ws)
+		sidx := bitmap.IndexSelect32(ws)
+		prs := make([]string, 0, len(ta))
+		for i := range ta {
+			x, y := bitmap.Select32(ws, sidx, int32(i))
+			prs = append(prs, L(I32(x), I32(y)))
+		}
+		return L(I32s(ta), L(prs...))
+	}
+	Exec["bitmap.Select32R64/ToArray"] = func(a []V) string {
+		ws := a[0].U64s()
+		ta := bitmap.ToArray(ws)
+		sidx, ridx := bitmap.IndexSelect32R64(ws)
+		prs := make([]string, 0, len(ta))
+		for i := range ta {
+			x, y := bitmap.Select32R64(ws, sidx, ridx, int32(i))
+			prs = append(prs, L(I32(x), I32(y)))
+		}
+		return L(I32s(ta), L(prs...))
+	}
 	Register("C02", genC02)
 }
 
@@ -360,6 +384,17 @@ func genC02(g *Gen) {
 		nfrom(ws, os, (last+64)&^63)
 	}
 
+	// whole-bitmap sweep against ToArray (non-trivial when there are at least 2 words and 33 1-bits)
+	sweep := func(ws []uint64) {
+		n := popcount(ws)
+		key := ""
+		if n > 32 && len(ws) > 1 {
+			key = fmt.Sprintf("sweep/cp%d/nw%d", c02Cap((n+31)/32, 8), c02Cap(len(ws), 12))
+		}
+		g.Do("bitmap.Select32/ToArray", L(U64s(ws)), key)
+		g.Do("bitmap.Select32R64/ToArray", L(U64s(ws)), key)
+	}
+
 	held := func(ws []uint64, os []int, i int, bucket string) {
 		g.Stat(bucket)
 		decoy := make([]uint64, len(ws))
@@ -401,6 +436,7 @@ func genC02(g *Gen) {
 	// (0) empty and all-zero bitmaps: index only (no valid i)
 	for n := 0; n <= 3; n++ {
 		index(make([]uint64, n))
+		sweep(make([]uint64, n))
 	}
 
 	// (1) the byte table through the API: every byte value at every byte position of a
@@ -509,6 +545,7 @@ func genC02(g *Gen) {
 			ws[i] = ^uint64(0)
 		}
 		index(ws)
+		sweep(ws)
 		selAll(ws, "exh-full")
 	}
 	g.Exhaust = append(g.Exhaust, fmt.Sprintf("all-ones bitmaps of 1..%d words x all i", g.N(3, 6)))
@@ -613,6 +650,9 @@ func genC02(g *Gen) {
 		for q := 0; q < 6; q++ {
 			try(g.R.Intn(cnt))
 		}
+		if n <= 6 || (k%8 == 0 && cnt <= 900) {
+			sweep(ws)
+		}
 		if !g.Thorough {
 			fromSpread(ws, os, 1)
 		} else if k%4 == 0 {
@@ -687,6 +727,9 @@ func genC02(g *Gen) {
 				try(g.R.Intn(cnt))
 			}
 			fromSpread(ws, os, 1)
+			if variant == 1 {
+				sweep(ws)
+			}
 			held(ws, os, g.R.Intn(cnt), "held-index-large")
 		}
 	}
